@@ -208,7 +208,6 @@ func compile(patterns []string, mode Mode) (*regexp.Regexp, error) {
 		if i > 0 {
 			b.WriteByte('|')
 		}
-	Pattern:
 		for pat != "" {
 			r, w := utf8.DecodeRuneInString(pat)
 			switch r {
@@ -241,7 +240,9 @@ func compile(patterns []string, mode Mode) (*regexp.Regexp, error) {
 					switch r {
 					case utf8.RuneError:
 						if w == 0 {
-							break Pattern
+							// the bracket expression is not closed: the
+							// next pattern must not complete it
+							return regexp.Compile(b.String())
 						}
 						b.WriteString(pat[:w])
 					case '[':
@@ -264,7 +265,7 @@ func compile(patterns []string, mode Mode) (*regexp.Regexp, error) {
 							if w <= 1 {
 								b.WriteByte('\\')
 								if w == 0 {
-									break Pattern
+									return regexp.Compile(b.String())
 								}
 								b.WriteString(pat[:w])
 							}
@@ -286,7 +287,9 @@ func compile(patterns []string, mode Mode) (*regexp.Regexp, error) {
 					if w <= 1 {
 						b.WriteByte('\\')
 						if w == 0 {
-							break Pattern
+							// a trailing backslash must not escape the
+							// separator of the next pattern
+							return regexp.Compile(b.String())
 						}
 						b.WriteString(pat[:w])
 					}
